@@ -356,6 +356,17 @@ func ScriptOps() []mtypes.Op {
 	}
 }
 
+// DelegateOps are the nested-call operations: the encoder is handed to json.MarshalEncode for a value that is
+// handled by a method taking the coder, by a caller-supplied function, by a []byte method, or by no user code.
+func DelegateOps() []mtypes.Op {
+	return []mtypes.Op{
+		{Delegate: true, Label: "MarshalEncode(inner)"},
+		{Delegate: true, Via: 'f', Label: "MarshalEncode(inner handled by MarshalToFunc)"},
+		{Delegate: true, Via: 'j', Label: "MarshalEncode(inner with MarshalJSON)"},
+		{Delegate: true, Via: 'p', Label: "MarshalEncode(plain string)"},
+	}
+}
+
 func modelOp(op mtypes.Op) refjson.EncOp {
 	if op.Delegate {
 		return refjson.EncOp{Kind: '"', Str: "inner", Label: op.Label}
@@ -528,6 +539,14 @@ func RunScript(pos *ScriptPos, c *carrier, ops []mtypes.Op, ret int, ignore bool
 	mtypes.Reset()
 	mtypes.ToScript = &mtypes.Script{Ops: ops, Ret: ret, IgnoreErrors: ignore}
 	opts := c.opts()
+	for _, op := range ops {
+		if op.Delegate && op.Via == 'f' {
+			// the nested call is handled by a caller-supplied function: join it behind the carrier's own functions
+			cur, _ := jsonv2.GetOption(jsonv2.JoinOptions(opts...), jsonv2.WithMarshalers)
+			opts = append(opts, jsonv2.WithMarshalers(jsonv2.JoinMarshalers(cur, mtypes.InnerMarshalers)))
+			break
+		}
+	}
 	v := pos.Build(c.typ)
 	pre, post, repeat := pos.Pre, pos.Post, 1
 	switch pos.Name {
@@ -620,27 +639,28 @@ func marshalPolicing(r *evid.Run, prop string) {
 	})
 	// nested delegation: the script first hands the encoder to json.MarshalEncode for a value with its own
 	// MarshalJSONTo (a nested user call), then continues with every script of <= maxLen+1 further calls
-	deleg := mtypes.Op{Delegate: true, Label: "MarshalEncode(inner)"}
-	scripts(maxLen+1, func(ops []mtypes.Op, labels []string) {
-		full := append([]mtypes.Op{deleg}, ops...)
-		lab := append([]string{deleg.Label}, labels...)
-		for ret := 0; ret < 3; ret += 2 {
-			for pi := range poss {
-				for ci := 0; ci < len(cars); ci += 2 {
-					if poss[pi].Name == "map key" && !cars[ci].keyOK {
-						continue
-					}
-					n++
-					nt++
-					if msg := RunScript(&poss[pi], &cars[ci], full, ret, true); msg != "" {
-						cs := Case{Part: "marshal-script", Position: poss[pi].Name, Carrier: cars[ci].name, Script: append([]string(nil), lab...), Ret: ret, Ignore: true}
-						r.Violation(fmt.Sprintf("%s|ms|%s|%s|%s|%d|true", prop, cs.Position, cs.Carrier, strings.Join(lab, " "), ret), msg, cs, func() bool { return replayCase(cs) != "" })
+	for _, deleg := range DelegateOps() {
+		scripts(maxLen+1, func(ops []mtypes.Op, labels []string) {
+			full := append([]mtypes.Op{deleg}, ops...)
+			lab := append([]string{deleg.Label}, labels...)
+			for ret := 0; ret < 3; ret += 2 {
+				for pi := range poss {
+					for ci := 0; ci < len(cars); ci += 2 {
+						if poss[pi].Name == "map key" && !cars[ci].keyOK {
+							continue
+						}
+						n++
+						nt++
+						if msg := RunScript(&poss[pi], &cars[ci], full, ret, true); msg != "" {
+							cs := Case{Part: "marshal-script", Position: poss[pi].Name, Carrier: cars[ci].name, Script: append([]string(nil), lab...), Ret: ret, Ignore: true}
+							r.Violation(fmt.Sprintf("%s|ms|%s|%s|%s|%d|true", prop, cs.Position, cs.Carrier, strings.Join(lab, " "), ret), msg, cs, func() bool { return replayCase(cs) != "" })
+						}
 					}
 				}
 			}
-		}
-	})
-	r.Bound("nested delegation: json.MarshalEncode of a value with its own MarshalJSONTo followed by every script of <=%d further calls (errors ignored) x {nil, ErrUnsupported} x %d positions x 2 carriers", maxLen+1, len(poss))
+		})
+	}
+	r.Bound("nested delegation: json.MarshalEncode of a value handled by its own MarshalJSONTo / by a caller-supplied MarshalToFunc / by its MarshalJSON / by no user code, followed by every script of <=%d further calls (errors ignored) x {nil, ErrUnsupported} x %d positions x 2 carriers (method, function)", maxLen+1, len(poss))
 	r.Evaluations.Add(n)
 	r.Nontrivial.Add(nt)
 	r.Sample(Case{Part: "marshal-script", Position: "first field of two", Carrier: cars[0].name, Script: []string{"null", "}", "{", `"k"`, "1"}, Ret: 0})
@@ -949,8 +969,10 @@ func replayCase(cs Case) string {
 		alpha := ScriptOps()
 		var ops []mtypes.Op
 		for _, l := range cs.Script {
-			if l == "MarshalEncode(inner)" {
-				ops = append(ops, mtypes.Op{Delegate: true, Label: l})
+			for _, d := range DelegateOps() {
+				if d.Label == l {
+					ops = append(ops, d)
+				}
 			}
 			for _, a := range alpha {
 				if a.Label == l {
